@@ -373,7 +373,7 @@ def rule_allof(ctx: Ctx, rule: str = "C01.allof"):
         rep.check(ok, rule, rega.loc(), "registry.async_all delegates to the executor of that key", rega.key, f"return {show(v)}")
 
 
-def rule_expected(ctx: Ctx):
+def rule_expected(ctx: Ctx, rule: str = "C01.expected"):
     rep = ctx.rep
     for name in ("call", "__call__"):
         fn = ctx.fn(f"CallbackWrapper.{name}")
@@ -391,7 +391,7 @@ def rule_expected(ctx: Ctx):
                     pol = not b.x["taken"]
             v = expand(p.value, evs)
             if pol is None:
-                rep.violation("C01.expected", fn.loc(), f"CallbackWrapper.{name} never tests expected_value against None",
+                rep.violation(rule, fn.loc(), f"CallbackWrapper.{name} never tests expected_value against None",
                               fn.key, f"return {show(v)}")
                 continue
             n += 1
@@ -402,13 +402,13 @@ def rule_expected(ctx: Ctx):
                     b = [s for s in sides if isinstance(s, ast.Call) and show(s.func) == "bool" and len(s.args) == 1]
                     e = [s for s in sides if show(s) == "self.expected_value"]
                     ok = len(b) == 1 and len(e) == 1 and "self._callback(" in show(b[0].args[0])
-                rep.check(bool(ok), "C01.expected", fn.loc(),
+                rep.check(bool(ok), rule, fn.loc(),
                           f"CallbackWrapper.{name}: a guard's verdict is `bool(result) == expected_value`", fn.key, f"return {show(v)}")
             else:
                 ok = "self._callback(" in show(v) and not isinstance(v, (ast.Compare, ast.UnaryOp, ast.BoolOp))
-                rep.check(ok, "C01.expected", fn.loc(), f"CallbackWrapper.{name}: non-guards return the callback's own value",
+                rep.check(ok, rule, fn.loc(), f"CallbackWrapper.{name}: non-guards return the callback's own value",
                           fn.key, f"return {show(v)}")
-        rep.floor("C01.expected", f"paths of CallbackWrapper.{name}", n, 2)
+        rep.floor(rule, f"paths of CallbackWrapper.{name}", n, 2)
     # registration sites: cond -> True, unless -> False
     sites = 0
     init = ctx.fn("Transition.__init__")
@@ -427,7 +427,7 @@ def rule_expected(ctx: Ctx):
                 want = which == "cond"
                 sites += 1
                 recv = xshow(f.value, p.events)
-                rep.check(isinstance(ev_, ast.Constant) and ev_.value is want and "CallbackGroup.COND" in recv, "C01.expected", e.loc(),
+                rep.check(isinstance(ev_, ast.Constant) and ev_.value is want and "CallbackGroup.COND" in recv, rule, e.loc(),
                           f"Transition(... {which}=) registers guards with expected_value={want} in the COND group", init.key,
                           norm_stmt(e.node), expected_value=show(ev_))
     for which, want in (("cond", True), ("unless", False)):
@@ -441,9 +441,9 @@ def rule_expected(ctx: Ctx):
                 grp = show(v.args[1]) if len(v.args) > 1 else show(kw.get("grouper"))
                 ok = isinstance(ev_, ast.Constant) and ev_.value is want and grp == "CallbackGroup.COND"
             sites += 1
-            rep.check(bool(ok), "C01.expected", fn.loc(), f"decorator `.{which}` registers a COND guard with expected_value={want}",
+            rep.check(bool(ok), rule, fn.loc(), f"decorator `.{which}` registers a COND guard with expected_value={want}",
                       fn.key, f"return {show(v)}")
-    rep.floor("C01.expected", "guard registration sites", sites, 4)
+    rep.floor(rule, "guard registration sites", sites, 4)
     # the flag travels unchanged to the wrapper
     chain = [("TransitionList._add_callback", "_add_unbounded_callback"), ("Event._add_callback", "_add_callback"),
              ("SpecListGrouper._add_unbounded_callback", "_add_unbounded_callback"), ("SpecListGrouper.add", "add"),
@@ -457,7 +457,7 @@ def rule_expected(ctx: Ctx):
             if isinstance(n, ast.Call) and isinstance(n.func, ast.Attribute) and n.func.attr == callee:
                 found = True
                 ok = kwname is not None and any(k.arg is None and show(k.value) == kwname for k in n.keywords)
-                rep.check(ok, "C01.expected", fn.loc(n), f"{key} forwards the registration options (**{kwname}) to `{callee}`", fn.key,
+                rep.check(ok, rule, fn.loc(n), f"{key} forwards the registration options (**{kwname}) to `{callee}`", fn.key,
                           norm_stmt(n))
         if not found:
             raise AnalysisError(f"anchor lost: {key} no longer calls {callee}")
@@ -468,9 +468,9 @@ def rule_expected(ctx: Ctx):
             if show(e.term.value) == "self":
                 stores[e.x["attr"]] = show(e.x["value"])
         break
-    rep.check(stores.get("expected_value") == "expected_value", "C01.expected", spec_init.loc(),
+    rep.check(stores.get("expected_value") == "expected_value", rule, spec_init.loc(),
               "CallbackSpec keeps the expected_value it was given", spec_init.key, f"self.expected_value = {stores.get('expected_value')}")
-    rep.check(stores.get("cond") == "cond", "C01.expected", spec_init.loc(), "CallbackSpec keeps the condition it was given",
+    rep.check(stores.get("cond") == "cond", rule, spec_init.loc(), "CallbackSpec keeps the condition it was given",
               spec_init.key, f"self.cond = {stores.get('cond')}")
     w_init = ctx.fn("CallbackWrapper.__init__")
     stores = {}
@@ -479,9 +479,9 @@ def rule_expected(ctx: Ctx):
             if show(e.term.value) == "self":
                 stores[e.x["attr"]] = xshow(e.x["value"], p.events)
         break
-    rep.check(stores.get("expected_value") in ("self.meta.expected_value", "meta.expected_value"), "C01.expected", w_init.loc(),
+    rep.check(stores.get("expected_value") in ("self.meta.expected_value", "meta.expected_value"), rule, w_init.loc(),
               "the wrapper's expected_value is its spec's", w_init.key, f"self.expected_value = {stores.get('expected_value')}")
-    rep.check(stores.get("meta") == "meta" and stores.get("_callback") == "callback", "C01.expected", w_init.loc(),
+    rep.check(stores.get("meta") == "meta" and stores.get("_callback") == "callback", rule, w_init.loc(),
               "the wrapper keeps the spec and callable it was built for", w_init.key, str(stores))
 
 
